@@ -69,20 +69,20 @@ theorem canon6_spec (t : Bytes) (h : canon6 t = true) : ∃ b, pton6 t = some b 
 
 /-- a stored address that is absent or canonical: the item written for it, and what the constructor makes of that item -/
 theorem ip4_item (a : Option Bytes) (h : optAll canon4 a = true) :
-    ∃ i, itemIp aton a = some i ∧ bytesToIpv4 (toIpArg i) = some a := by
+    ∃ i, itemIp aton a = some i ∧ ctorIp aton ntoa (toIpArg i) = some a := by
   cases a with
-  | none => exact ⟨null, rfl, by simp [toIpArg_null, bytesToIpv4]⟩
+  | none => exact ⟨null, rfl, by simp [toIpArg_null, ctorIp, argToBytes, bytesToText]⟩
   | some t =>
     obtain ⟨b, hb, ht⟩ := canon4_spec t h
-    exact ⟨.bytes b, by simp [itemIp, hb], by simp [toIpArg_bytes, bytesToIpv4, ht]⟩
+    exact ⟨.bytes b, by simp [itemIp, hb], by simp [toIpArg_bytes, ctorIp, argToBytes, bytesToText, ht]⟩
 
 theorem ip6_item (a : Option Bytes) (h : optAll canon6 a = true) :
-    ∃ i, itemIp pton6 a = some i ∧ bytesToIpv6 (toIpArg i) = some a := by
+    ∃ i, itemIp pton6 a = some i ∧ ctorIp pton6 ntop6 (toIpArg i) = some a := by
   cases a with
-  | none => exact ⟨null, rfl, by simp [toIpArg_null, bytesToIpv6]⟩
+  | none => exact ⟨null, rfl, by simp [toIpArg_null, ctorIp, argToBytes, bytesToText]⟩
   | some t =>
     obtain ⟨b, hb, ht⟩ := canon6_spec t h
-    exact ⟨.bytes b, by simp [itemIp, hb], by simp [toIpArg_bytes, bytesToIpv6, ht]⟩
+    exact ⟨.bytes b, by simp [itemIp, hb], by simp [toIpArg_bytes, ctorIp, argToBytes, bytesToText, ht]⟩
 
 /-! ## relays -/
 
@@ -134,12 +134,12 @@ theorem itemName_some (d : Name) (i : Item) (h : itemName d = some i) : nameOk d
   cases d <;> simp [itemName, nameOk] at h ⊢
 
 theorem ip4_reenc (a : Option Bytes) (ai : Item) (h : itemIp aton a = some ai) :
-    ∃ a', bytesToIpv4 (toIpArg ai) = some a' ∧ optAll canon4 a' = true ∧ itemIp aton a' = some ai := by
+    ∃ a', ctorIp aton ntoa (toIpArg ai) = some a' ∧ optAll canon4 a' = true ∧ itemIp aton a' = some ai := by
   cases a with
   | none =>
     simp only [itemIp, Option.some.injEq] at h
     subst h
-    exact ⟨Option.none, by simp [toIpArg_null, bytesToIpv4], rfl, rfl⟩
+    exact ⟨Option.none, by simp [toIpArg_null, ctorIp, argToBytes, bytesToText], rfl, rfl⟩
   | some t =>
     simp only [itemIp] at h
     split at h
@@ -147,16 +147,16 @@ theorem ip4_reenc (a : Option Bytes) (ai : Item) (h : itemIp aton a = some ai) :
       simp only [Option.some.injEq] at h
       subst h
       obtain ⟨t', h1, h2, h3⟩ := canon4_ntoa b (aton_length t b hb)
-      exact ⟨some t', by simp [toIpArg_bytes, bytesToIpv4, h1], h2, by simp [itemIp, h3]⟩
+      exact ⟨some t', by simp [toIpArg_bytes, ctorIp, argToBytes, bytesToText, h1], h2, by simp [itemIp, h3]⟩
     · simp at h
 
 theorem ip6_reenc (a : Option Bytes) (ai : Item) (h : itemIp pton6 a = some ai) :
-    ∃ a', bytesToIpv6 (toIpArg ai) = some a' ∧ optAll canon6 a' = true ∧ itemIp pton6 a' = some ai := by
+    ∃ a', ctorIp pton6 ntop6 (toIpArg ai) = some a' ∧ optAll canon6 a' = true ∧ itemIp pton6 a' = some ai := by
   cases a with
   | none =>
     simp only [itemIp, Option.some.injEq] at h
     subst h
-    exact ⟨Option.none, by simp [toIpArg_null, bytesToIpv6], rfl, rfl⟩
+    exact ⟨Option.none, by simp [toIpArg_null, ctorIp, argToBytes, bytesToText], rfl, rfl⟩
   | some t =>
     simp only [itemIp] at h
     split at h
@@ -164,7 +164,7 @@ theorem ip6_reenc (a : Option Bytes) (ai : Item) (h : itemIp pton6 a = some ai) 
       simp only [Option.some.injEq] at h
       subst h
       obtain ⟨t', h1, h2, h3⟩ := canon6_ntop6 b (pton6_length t b hb)
-      exact ⟨some t', by simp [toIpArg_bytes, bytesToIpv6, h1], h2, by simp [itemIp, h3]⟩
+      exact ⟨some t', by simp [toIpArg_bytes, ctorIp, argToBytes, bytesToText, h1], h2, by simp [itemIp, h3]⟩
     · simp at h
 
 /-- whatever relay can be written at all decodes to a canonical relay that is written the same way -/
@@ -222,8 +222,142 @@ theorem mkAddr_bytes (p : Port) (hp : portOk p = true) (b4 b6 : Bytes) (h4 : b4.
   obtain ⟨t4, h41, h42, h43⟩ := canon4_ntoa b4 h4
   obtain ⟨t6, h61, h62, h63⟩ := canon6_ntop6 b6 h6
   obtain ⟨pi, hpi, _⟩ := portOk_item p hp
-  exact ⟨.addr p (some t4) (some t6), pi, by simp [mkAddr, bytesToIpv4, bytesToIpv6, h41, h61],
+  exact ⟨.addr p (some t4) (some t6), pi, by simp [mkAddr, ctorIp, argToBytes, bytesToText, h41, h61],
     by simp [relayOk, hp, optAll, h42, h62], hpi, by simp [encRelay, hpi, itemIp, h43, h63]⟩
+
+/-! ## the constructor as a normalisation: constructed relays are exactly the canonical ones -/
+
+/-- whatever the constructor stores for an address argument (text, bytes, or anything else) is absent or canonical -/
+theorem ctorIp4_canon (a : IpArg) (o : Option Bytes) (h : ctorIp aton ntoa a = some o) : optAll canon4 o = true := by
+  cases a with
+  | none => simp only [ctorIp, argToBytes, bytesToText, Option.some.injEq] at h; subst h; rfl
+  | text t =>
+    simp only [ctorIp, argToBytes] at h
+    cases hb : aton t with
+    | none => simp [hb] at h
+    | some b =>
+      obtain ⟨t', h1, h2, _⟩ := canon4_ntoa b (aton_length t b hb)
+      simp only [hb, bytesToText, h1, Option.some.injEq] at h
+      subst h
+      exact h2
+  | bytes b =>
+    simp only [ctorIp, argToBytes, bytesToText] at h
+    cases hb : ntoa b with
+    | none => simp [hb] at h
+    | some t' =>
+      obtain ⟨t'', h1, h2, _⟩ := canon4_ntoa b (ntoa_length b t' hb)
+      rw [hb] at h1
+      obtain rfl := Option.some.inj h1
+      simp only [hb, Option.some.injEq] at h
+      subst h
+      exact h2
+
+theorem ctorIp6_canon (a : IpArg) (o : Option Bytes) (h : ctorIp pton6 ntop6 a = some o) : optAll canon6 o = true := by
+  cases a with
+  | none => simp only [ctorIp, argToBytes, bytesToText, Option.some.injEq] at h; subst h; rfl
+  | text t =>
+    simp only [ctorIp, argToBytes] at h
+    cases hb : pton6 t with
+    | none => simp [hb] at h
+    | some b =>
+      obtain ⟨t', h1, h2, _⟩ := canon6_ntop6 b (pton6_length t b hb)
+      simp only [hb, bytesToText, h1, Option.some.injEq] at h
+      subst h
+      exact h2
+  | bytes b =>
+    simp only [ctorIp, argToBytes, bytesToText] at h
+    cases hb : ntop6 b with
+    | none => simp [hb] at h
+    | some t' =>
+      obtain ⟨t'', h1, h2, _⟩ := canon6_ntop6 b (ntop6_length b t' hb)
+      rw [hb] at h1
+      obtain rfl := Option.some.inj h1
+      simp only [hb, Option.some.injEq] at h
+      subst h
+      exact h2
+
+/-- a canonical text is stored as it is -/
+theorem ctorIp4_fixed (o : Option Bytes) (h : optAll canon4 o = true) : ctorIp aton ntoa (textArg o) = some o := by
+  cases o with
+  | none => rfl
+  | some t =>
+    obtain ⟨b, hb, ht⟩ := canon4_spec t h
+    simp [textArg, ctorIp, argToBytes, bytesToText, hb, ht]
+
+theorem ctorIp6_fixed (o : Option Bytes) (h : optAll canon6 o = true) : ctorIp pton6 ntop6 (textArg o) = some o := by
+  cases o with
+  | none => rfl
+  | some t =>
+    obtain ⟨b, hb, ht⟩ := canon6_spec t h
+    simp [textArg, ctorIp, argToBytes, bytesToText, hb, ht]
+
+/-- … and only a canonical text is -/
+theorem canon4_of_fixed (o : Option Bytes) (h : ctorIp aton ntoa (textArg o) = some o) : optAll canon4 o = true :=
+  ctorIp4_canon _ o h
+
+theorem canon6_of_fixed (o : Option Bytes) (h : ctorIp pton6 ntop6 (textArg o) = some o) : optAll canon6 o = true :=
+  ctorIp6_canon _ o h
+
+theorem mkAddr_some (p : Port) (a4 a6 : IpArg) (r : Relay) (h : mkAddr p a4 a6 = some r) :
+    ∃ a b, r = .addr p a b ∧ ctorIp aton ntoa a4 = some a ∧ ctorIp pton6 ntop6 a6 = some b := by
+  unfold mkAddr at h
+  split at h
+  · rename_i a b ha hb
+    simp only [Option.some.injEq] at h
+    exact ⟨a, b, h.symm, ha, hb⟩
+  · simp at h
+
+/-- what the constructor returns is a fixed point of the constructor -/
+theorem mkAddr_constructed (p : Port) (a4 a6 : IpArg) (r : Relay) (h : mkAddr p a4 a6 = some r) : normRelay r = some r := by
+  obtain ⟨a, b, rfl, ha, hb⟩ := mkAddr_some p a4 a6 r h
+  simp [normRelay, mkAddr, ctorIp4_fixed a (ctorIp4_canon a4 a ha), ctorIp6_fixed b (ctorIp6_canon a6 b hb)]
+
+theorem normRelay_idem (r r' : Relay) (h : normRelay r = some r') : normRelay r' = some r' := by
+  cases r with
+  | addr p a b => exact mkAddr_constructed p _ _ r' h
+  | name p d => simp only [normRelay, Option.some.injEq] at h; subst h; rfl
+  | multi d => simp only [normRelay, Option.some.injEq] at h; subst h; rfl
+
+/-- constructed and well typed = the executable `relayOk` -/
+theorem relayOk_iff (r : Relay) : relayOk r = true ↔ (normRelay r = some r ∧ relayTyped r = true) := by
+  cases r with
+  | addr p a b =>
+    simp only [relayOk, relayTyped, Bool.and_eq_true]
+    constructor
+    · rintro ⟨⟨hp, ha⟩, hb⟩
+      exact ⟨by simp [normRelay, mkAddr, ctorIp4_fixed a ha, ctorIp6_fixed b hb], hp⟩
+    · rintro ⟨hn, hp⟩
+      obtain ⟨a', b', e, ha, hb⟩ := mkAddr_some p _ _ _ hn
+      injection e with _ ea eb
+      subst ea; subst eb
+      exact ⟨⟨hp, canon4_of_fixed a ha⟩, canon6_of_fixed b hb⟩
+  | name p d => simp [relayOk, relayTyped, normRelay]
+  | multi d => simp [relayOk, relayTyped, normRelay]
+
+/-- the decoders go through the constructors: whatever is decoded is constructed -/
+theorem decRelay_constructed (i : Item) (r : Relay) (h : decRelay i = .ok r) : normRelay r = some r := by
+  unfold decRelay at h
+  split at h
+  · simp at h
+  · split at h
+    · split at h
+      · split at h
+        · rename_i x hx
+          simp only [Res.ok.injEq] at h
+          subst h
+          exact mkAddr_constructed _ _ _ _ hx
+        · simp at h
+      · simp at h
+    · split at h
+      · split at h
+        · simp only [Res.ok.injEq] at h; subst h; rfl
+        · simp at h
+      · split at h
+        · split at h
+          · simp only [Res.ok.injEq] at h; subst h; rfl
+          · simp at h
+        · simp at h
+  · simp at h
 
 /-! ## hashes, owners -/
 
@@ -446,8 +580,8 @@ theorem decRelays_item (rs : Option (List Relay)) (h : relaysOk rs = true) :
     exact ⟨.array is, by simp [itemRelaysOpt, h1], by simp [decRelays, listElems?, Res.bind, h2]⟩
 
 /-- the nine or ten items of well-formed pool parameters, and what the field-by-field restoration makes of them -/
-theorem decParamsItems_items (p : PoolParams) (h : paramsOk p = true) :
-    ∃ is, itemsParams p = some is ∧ decParamsItems is = .ok (normParams p) ∧
+theorem decParamsFields_items (p : PoolParams) (h : paramsOk p = true) :
+    ∃ is, itemsParams p = some is ∧ decParamsFields is = .ok (normParams p) ∧
       (∀ ys, is.head? ≠ some (.array ys)) := by
   simp only [paramsOk, paramsOkW, Bool.and_eq_true, beq_iff_eq] at h
   obtain ⟨⟨⟨⟨⟨⟨⟨hop, hvrf⟩, hfr⟩, hra⟩, how⟩, hmd⟩, hid⟩, hrl⟩ := h
@@ -460,7 +594,7 @@ theorem decParamsItems_items (p : PoolParams) (h : paramsOk p = true) :
     refine ⟨[.bytes p.operator, .bytes p.vrf, ofInt p.pledge, ofInt p.cost, itemFrac p.margin, .bytes p.rewardAccount,
       itemOwners p.owners, ri, itemMetadata p.metadata], ?_, ?_, ?_⟩
     · simp [itemsParams, hpid, hri1]
-    · simp [decParamsItems, Res.bind, decHash_bytes 28 _ hop, decHash_bytes 32 _ hvrf, decHash_bytes 29 _ hra,
+    · simp [decParamsFields, Res.bind, decHash_bytes 28 _ hop, decHash_bytes 32 _ hvrf, decHash_bytes 29 _ hra,
         itemInt_ofInt_all, hfr', how', hri2, hmd', normParams, hpid]
     · intro ys; simp
   | some s =>
@@ -469,9 +603,37 @@ theorem decParamsItems_items (p : PoolParams) (h : paramsOk p = true) :
     refine ⟨[.bytes p.operator, .bytes p.vrf, ofInt p.pledge, ofInt p.cost, itemFrac p.margin, .bytes p.rewardAccount,
       itemOwners p.owners, ri, itemMetadata p.metadata, itemPoolId s], ?_, ?_, ?_⟩
     · simp [itemsParams, hpid, hri1]
-    · simp [decParamsItems, Res.bind, decHash_bytes 28 _ hop, decHash_bytes 32 _ hvrf, decHash_bytes 29 _ hra,
+    · simp [decParamsFields, Res.bind, decHash_bytes 28 _ hop, decHash_bytes 32 _ hvrf, decHash_bytes 29 _ hra,
         itemInt_ofInt_all, hfr', how', hri2, hmd', hid', normParams, hpid]
     · intro ys; simp
+
+theorem postInit_of_some (p : PoolParams) (h : p.relays.isSome = true) : postInit p = p := by
+  unfold postInit
+  cases hr : p.relays with
+  | none => simp [hr] at h
+  | some rs => rfl
+
+theorem relaysOk_isSome (rs : Option (List Relay)) (h : relaysOk rs = true) : rs.isSome = true := by
+  cases rs with
+  | none => simp [relaysOk] at h
+  | some l => rfl
+
+theorem postInit_idem (p : PoolParams) : postInit (postInit p) = postInit p := by
+  unfold postInit
+  cases hr : p.relays <;> simp [hr]
+
+theorem postInit_isSome (p : PoolParams) : (postInit p).relays.isSome = true := by
+  unfold postInit
+  cases hr : p.relays <;> simp [hr]
+
+theorem decParamsItems_items (p : PoolParams) (h : paramsOk p = true) :
+    ∃ is, itemsParams p = some is ∧ decParamsItems is = .ok (normParams p) ∧
+      (∀ ys, is.head? ≠ some (.array ys)) := by
+  obtain ⟨is, h1, h2, h3⟩ := decParamsFields_items p h
+  have hs : (normParams p).relays.isSome = true := by
+    simp only [paramsOk, Bool.and_eq_true] at h
+    exact relaysOk_isSome _ h.2
+  exact ⟨is, h1, by simp [decParamsItems, h2, postInit_of_some _ hs], h3⟩
 
 theorem decRegistration_flat (is : List Item) (hne : is ≠ []) (hh : ∀ ys, is.head? ≠ some (.array ys)) :
     decRegistration (.array (.uint 3 :: is)) = decParamsItems is := by
@@ -510,6 +672,76 @@ theorem paramsOk_norm (p : PoolParams) (h : paramsOk p = true) : paramsOk (normP
   simp only [paramsOk, paramsOkW, Bool.and_eq_true, normParams]
   exact ⟨⟨⟨⟨h'.1.1.1.1, this⟩, h'.1.1.2⟩, h'.1.2⟩, h'.2⟩
 
+/-! ## constructed pool parameters -/
+
+/-- constructed pool parameters: `__post_init__` has run (`relays` is a list) and every relay in it is a constructed relay -/
+def ParamsConstructed (p : PoolParams) : Prop :=
+  postInit p = p ∧ ∀ rs, p.relays = some rs → ∀ r ∈ rs, normRelay r = some r
+
+/-- the class invariants of the component classes (hash sizes, `Fraction` in lowest terms, `OrderedSet` without duplicates,
+valid `PoolId`) and the relay fields `validate()` checks -/
+def paramsTyped (p : PoolParams) : Bool := paramsOkW p && relaysTyped p.relays
+
+theorem isSome_of_postInit (p : PoolParams) (h : postInit p = p) : p.relays.isSome = true := by
+  rw [← h]; exact postInit_isSome p
+
+theorem all_relayOk_iff (rs : List Relay) :
+    rs.all relayOk = true ↔ ((∀ r ∈ rs, normRelay r = some r) ∧ rs.all relayTyped = true) := by
+  induction rs with
+  | nil => simp
+  | cons r rs ih =>
+    simp only [List.all_cons, Bool.and_eq_true, List.mem_cons, forall_eq_or_imp, ih, relayOk_iff]
+    constructor
+    · rintro ⟨⟨a, b⟩, c, d⟩; exact ⟨⟨a, c⟩, b, d⟩
+    · rintro ⟨⟨a, c⟩, b, d⟩; exact ⟨⟨a, b⟩, c, d⟩
+
+/-- the executable `paramsOk` is "constructed, with well-typed components" -/
+theorem paramsOk_iff (p : PoolParams) : paramsOk p = true ↔ (ParamsConstructed p ∧ paramsTyped p = true) := by
+  simp only [paramsOk, paramsTyped, ParamsConstructed, Bool.and_eq_true]
+  cases hr : p.relays with
+  | none =>
+    constructor
+    · rintro ⟨_, h⟩; simp [relaysOk] at h
+    · rintro ⟨⟨h, _⟩, _⟩
+      have := isSome_of_postInit p h
+      simp [hr] at this
+  | some rs =>
+    have hp : postInit p = p := postInit_of_some p (by simp [hr])
+    simp only [relaysOk, relaysTyped, all_relayOk_iff, hp, true_and, Option.some.injEq]
+    constructor
+    · rintro ⟨hw, hc, ht⟩; exact ⟨fun rs' e => e ▸ hc, hw, ht⟩
+    · rintro ⟨hc, hw, ht⟩; exact ⟨hw, hc rs rfl, ht⟩
+
+theorem decRelayList_constructed (is : List Item) (rs : List Relay) (h : decRelayList is = .ok rs) :
+    ∀ r ∈ rs, normRelay r = some r := by
+  induction is generalizing rs with
+  | nil => simp only [decRelayList, Res.ok.injEq] at h; subst h; simp
+  | cons i is ih =>
+    simp only [decRelayList, Res.bind] at h
+    split at h
+    · rename_i r hr
+      split at h
+      · rename_i rs' hrs
+        simp only [Res.ok.injEq] at h
+        subst h
+        intro x hx
+        simp only [List.mem_cons] at hx
+        rcases hx with rfl | hx
+        · exact decRelay_constructed i _ hr
+        · exact ih rs' hrs x hx
+      · simp at h
+      · simp at h
+    · simp at h
+    · simp at h
+
+/-- whatever `PoolParams.from_primitive` returns went through `__post_init__` -/
+theorem decParamsItems_postInit (xs : List Item) (p : PoolParams) (h : decParamsItems xs = .ok p) : postInit p = p := by
+  unfold decParamsItems at h
+  split at h
+  · simp only [Res.ok.injEq] at h; subst h; exact postInit_idem _
+  · simp at h
+  · simp at h
+
 /-! ## registration: both forms, any encodable object, injectivity -/
 
 theorem decRegistration_nested (is : List Item) (rest : List Item) :
@@ -535,13 +767,10 @@ theorem decRelayList_of_enc (rs : List Relay) (is : List Item) (h : encRelays rs
     · simp at h
 
 /-- the canonical relays of an encodable relay list: what decoding its encoding gives -/
-theorem itemRelaysOpt_of_enc (rs : Option (List Relay)) (i : Item) (h : itemRelaysOpt rs = some i) :
+theorem itemRelaysOpt_of_enc (rs : Option (List Relay)) (hs : rs.isSome = true) (i : Item) (h : itemRelaysOpt rs = some i) :
     ∃ rs', decRelays i = .ok rs' ∧ relaysOk rs' = true ∧ itemRelaysOpt rs' = some i := by
   cases rs with
-  | none =>
-    simp only [itemRelaysOpt, Option.some.injEq] at h
-    subst h
-    exact ⟨Option.none, by simp [decRelays, null, listElems?], rfl, rfl⟩
+  | none => simp at hs
   | some l =>
     simp only [itemRelaysOpt] at h
     split at h
@@ -565,13 +794,14 @@ theorem itemsParams_congr (p p' : PoolParams) (h1 : p'.operator = p.operator) (h
     itemsParams p' = itemsParams p := by
   simp only [itemsParams, h1, h2, h3, h4, h5, h6, h7, h8, h9, h10]
 
-/-- **any** pool parameters that can be written at all (class invariants, relays with whatever address texts the
-socket functions accept): decoding gives parameters within the round-trip theorem that are written the same way -/
-theorem decParamsItems_of_enc (p : PoolParams) (hw : paramsOkW p = true) (is : List Item) (h : itemsParams p = some is) :
+/-- **any** pool parameters holding a list of relays that can be written at all (class invariants, relays with whatever
+address texts the socket functions accept — attributes assigned after construction): decoding gives parameters within the round-trip theorem that are written the same way -/
+theorem decParamsItems_of_enc (p : PoolParams) (hw : paramsOkW p = true) (hs : p.relays.isSome = true) (is : List Item)
+    (h : itemsParams p = some is) :
     ∃ p', decParamsItems is = .ok p' ∧ paramsOk p' = true ∧ itemsParams p' = some is ∧ normParams p' = p' ∧
       (∀ ys, is.head? ≠ some (.array ys)) := by
   obtain ⟨ri, hri⟩ := itemsParams_relays p is h
-  obtain ⟨rs', hr1, hr2, hr3⟩ := itemRelaysOpt_of_enc p.relays ri hri
+  obtain ⟨rs', hr1, hr2, hr3⟩ := itemRelaysOpt_of_enc p.relays hs ri hri
   let p1 : PoolParams := { p with relays := rs' }
   have hok : paramsOk p1 = true := by
     simp only [paramsOk, Bool.and_eq_true]
